@@ -20,6 +20,8 @@ func init() {
 }
 
 func runC03(c *Ctx) {
+	c.Rule("R11", "the incremental handler admits every request with Start <= End to the prover (finite order model over the handler's own tests)", 1)
+	consistencyRequestsAdmitted(c, "R11")
 	c.Rule("R10", "memory of an object recycled through a sync.Pool never leaves its Get/Put window (returned, stored outside the function, sent)", 1)
 	poolEscapes(c, "R10", []string{"balloon", "balloon/history", "balloon/hyper", "api/apihttp", "protocol", "client"})
 	c.Rule("R1", "IncrementalProof.Verify: accepting ⇒ Equal(startRecomputed,startDigest) ∧ Equal(endRecomputed,endDigest), with the right traversals over the proof's audit path", 1)
